@@ -165,3 +165,15 @@ claim('C18', 'translation_validation',
       'GNU binutils readelf 2.40 is the oracle (the project targets >= 2.41: seven corpus pairs that differ only for that reason are excluded with the '
       'reason); DWARF-level description tables, notes, relocation-type names and version flags are not swept yet; known text deviations are listed in '
       'KNOWN_FINDINGS.json by table entry', 'DESIGN.md 5/C18', engine='tlc')
+claim('C11', 'model_checking',
+      'TLA+ debug-section loading pipeline (spec/Container.tla): writer of container encodings of one payload (plain, SHF_COMPRESSED, legacy .zdebug, '
+      'debug links with CRC slot, supplementary links) and a byte-level reader machine (Build, CheckLink, FollowDebugLink, ReadSection, InflateGabi, '
+      'InflateLegacy, LoadSupplementary) model-checked by TLC (Invariance, HasDwarfExact, BadCrcRejected, BadSizeRejected, BadFramingRejected, Progress); '
+      'emitted images replayed into ELFFile.get_dwarf_info and full DWARF dumps compared with the plain encoding; the same transforms applied '
+      'harness-side to corpus files (metamorphic) and, in the thorough tier, by objcopy',
+      'TLC enumerates 1300 (quick) / 2020 (thorough) configurations: class/byte order x DWARF version/format x 15 encoding plans x link kinds x loader/'
+      'follow_links, and checks on the specification that every valid encoding loads the payload and every bad CRC/size/framing is rejected; each final '
+      'state is a conformance case (presence, link, outcome class, full dump of units/DIEs/line rows/CFI); 10-30 corpus files are re-encoded at zlib '
+      'levels 0/1/6/9 in both namings, split behind debug links, and compared with their plain dumps.',
+      'zlib inflate of non-stored streams and CRC-32 are uninterpreted (Python zlib/binascii, objcopy 2.40 trusted); location/range/aranges/pubnames tables are '
+      'not in the dump', 'DESIGN.md 5/C11')
